@@ -16,7 +16,7 @@ RULE = ("(i) Exhaustive coefficient extraction: exploitability is linear in (low
         "coefficient of every lower(S)/upper(S) must be -/+ 1/C(n,|S|). (ii) Hypothesis: boxes (lower vector + non-negative "
         "widths; int/dyadic/float; v(empty)=0, grand coalition known) for n=2..9: value == exact rational weighted gap, == sum "
         "of per-player maximal Shapley values (independent orderings oracle, n<=7) - v(N); sign / zero claims; Shapley value "
-        "of drawn completions inside the box never exceeds the per-player maximum. (iii) the gap functions as selected BY NAME (GAP_FUNCTIONS, ModelInstance.gap_function_callable) on arbitrary real bound vectors, crossed bounds included, against the definitions. Non-trivial: >= 3 different widths with "
+        "of drawn completions inside the box never exceeds the per-player maximum; the max-gain game of every player (n<=6) read as a whole table, as a coalition list and coalition by coalition is the vertex upper-with-player / lower-without, reading it changes neither the bounds nor a subsequent exploitability. (iii) the gap functions as selected BY NAME (GAP_FUNCTIONS, ModelInstance.gap_function_callable) on arbitrary real bound vectors, crossed bounds included, against the definitions. Non-trivial: >= 3 different widths with "
         "at least one 0 and one > 0; distinct = hash of the box.")
 LEVEL_TEXT = ("The linear map is decided completely for each n by enumerating its basis (exhaustive for the listed n), and "
               "linearity/identities are explored on generated boxes against exact rational arithmetic. 'Proved for each n' in the "
@@ -233,6 +233,33 @@ def check_case(case: dict) -> Result:
         alt = sum(maxima) - Fraction(up[size - 1])
         if abs(got - float(alt)) > tol:
             res.fail(f"!=sum-of-max-shapley :: n={n}: got {got!r}, sum_i max phi_i - v(N) = {float(alt)!r}")
+    # (2b) 'the per-player maximum used': the max-gain game of player i is the vertex upper-on-S-with-i / lower elsewhere,
+    # whichever way it is asked (whole table, a list of coalitions, one coalition), asking is a pure query (bounds of the
+    # underlying game unchanged), and the exploitability is the same afterwards
+    if n <= 6 and case.get("maxgain", True):
+        import numpy as np
+        from incomplete_cooperative.exploitability import MaxGainGame
+        from .. import repo
+        before = ([float(x) for x in obj.get_lower_bounds()], [float(x) for x in obj.get_upper_bounds()])
+        order = case.get("maxgain_order") or list(range(n))
+        for i in order:
+            mg = MaxGainGame(obj, i)
+            vert = [float(up[s]) if s >> i & 1 else float(lo[s]) for s in range(size)]
+            whole = [float(x) for x in mg.get_values()]
+            some_ids = [s for s in range(size) if (s * 7 + i) % 3 != 0]
+            some = [float(x) for x in mg.get_values(repo.coals(some_ids))]
+            single = [float(mg.get_value(c)) for c in repo.coals(list(range(size)))]
+            if whole != vert or single != vert or some != [vert[s] for s in some_ids]:
+                res.fail(f"max-gain-game :: n={n} player {i}: values are not upper(S) for S containing the player and lower(S) otherwise "
+                         f"(whole table ok: {whole == vert}, coalition list ok: {some == [vert[s] for s in some_ids]}, single ok: {single == vert})")
+                break
+        after = ([float(x) for x in obj.get_lower_bounds()], [float(x) for x in obj.get_upper_bounds()])
+        if after != before:
+            res.fail(f"max-gain-query-mutates-game :: n={n} via {case['via']}: bounds of the underlying game changed by querying MaxGainGame values")
+        again = float(compute_exploitability(obj))
+        if again != got and not res.failures:
+            res.fail(f"exploitability-changes-after-query :: n={n}: {got!r} before, {again!r} after querying the max-gain games")
+        res.label("max-gain-queried")
     # (3) sign and zero
     if got < -tol:
         res.fail(f"negative :: n={n}: exploitability {got!r} with lower <= upper everywhere")
